@@ -26,7 +26,7 @@ pub mod Type {
     impl Sealed for string {const NAME: &'static str = "string";}
     impl Sealed for number {const NAME: &'static str = "number";}
     impl Sealed for integer {const NAME: &'static str = "integer";}
-    impl Sealed for bool {const NAME: &'static str = "bool";}
+    impl Sealed for bool {const NAME: &'static str = "boolean";}
     impl Sealed for array {const NAME: &'static str = "array";}
     impl Sealed for object {const NAME: &'static str = "object";}
     impl Sealed for any {const NAME: &'static str = "";}
